@@ -103,6 +103,128 @@ def stmt_of(node):
     return node
 
 
+# ---------------------------------------------------------------- quantifiers over a literal pair, outcomes of a function
+def _copy_tree(node):
+    """Fresh copy of an AST (positions kept, the index's back-pointers not followed)."""
+    if isinstance(node, list):
+        return [_copy_tree(x) for x in node]
+    if not isinstance(node, ast.AST):
+        return node
+    new = node.__class__()
+    for f in node._fields:
+        if hasattr(node, f):
+            setattr(new, f, _copy_tree(getattr(node, f)))
+    for a in ("lineno", "col_offset", "end_lineno", "end_col_offset"):
+        if hasattr(node, a):
+            setattr(new, a, getattr(node, a))
+    return new
+
+
+def _set_parents(tree):
+    for p in ast.walk(tree):
+        for c in ast.iter_child_nodes(p):
+            c._parent = p
+    return tree
+
+
+class _Unrolled:
+    """FuncInfo look-alike whose `node` is a rewritten copy of the function (positions kept)."""
+
+    def __init__(self, fi, node):
+        self._fi, self.node = fi, node
+
+    def __getattr__(self, name):
+        return getattr(self._fi, name)
+
+    def loc(self, node=None):
+        return self._fi.loc(node if node is not None and hasattr(node, "lineno") else None)
+
+
+def unrolled(fi):
+    """`fi` with quantifiers over a literal tuple written out: `all(P(q) for q in (a, b))` is `P(a) and P(b)`,
+    `any(...)` is `... or ...` (both are lazy, so evaluation order and short-circuit are the same); the tuple may be
+    held in a local (`pair = (self, other)`) provided nothing can rebind its elements in between.  Rules that read
+    conditions (facts, unit tags) then see the same conjunction whichever way it is spelled."""
+    fn = _set_parents(_copy_tree(fi.node))
+    nested = [d for d in ast.walk(fn) if isinstance(d, (ast.FunctionDef, ast.AsyncFunctionDef, ast.Lambda)) and d is not fn]
+    rebound_by_nested = {n for d in nested for x in ast.walk(d) if isinstance(x, ast.Nonlocal) for n in x.names}
+    nested_names = {d.name for d in nested if hasattr(d, "name")}
+    stored = {x.id for x in walk_local(fn) if isinstance(x, ast.Name) and isinstance(x.ctx, (ast.Store, ast.Del))}
+
+    def elements(it, use):
+        """the element expressions of the iterable if it is a literal tuple/list of plain operands, else None"""
+        src = it
+        if isinstance(it, ast.Name):
+            src = shape.dominating_def(it, fn)
+        if not isinstance(src, (ast.Tuple, ast.List)) or not 1 <= len(src.elts) <= 4:
+            return None
+        if not all(isinstance(e, ast.Name) and e.id not in stored for e in src.elts):
+            return None
+        if src is not it and any(e.id in rebound_by_nested for e in src.elts):
+            # a nested function may rebind an element: only safe when nothing runs between the definition and the use
+            d, u = stmt_of(src), stmt_of(use)
+            blk = getattr(d, "_parent", None)
+            lst = next((l for f_ in ("body", "orelse", "finalbody") for l in [getattr(blk, f_, None)] if isinstance(l, list) and any(x is d for x in l)), None)
+            if lst is None or not any(x is u for x in lst):
+                return None
+            i, j = [k for k, x in enumerate(lst) if x is d][0], [k for k, x in enumerate(lst) if x is u][0]
+            if any(isinstance(c, ast.Call) and isinstance(c.func, ast.Name) and c.func.id in nested_names for st in lst[i + 1:j] for c in ast.walk(st)):
+                return None
+        return src.elts
+
+    def subst(e, var, val):
+        class S(ast.NodeTransformer):
+            def visit_Name(self, n):
+                return ast.copy_location(ast.Name(id=val.id, ctx=ast.Load()), n) if n.id == var and isinstance(n.ctx, ast.Load) else n
+        return S().visit(_copy_tree(e))
+
+    class U(ast.NodeTransformer):
+        def visit_Call(self, c):
+            self.generic_visit(c)
+            if isinstance(c.func, ast.Name) and c.func.id in ("all", "any") and len(c.args) == 1 and not c.keywords and isinstance(c.args[0], (ast.GeneratorExp, ast.ListComp)) \
+                    and len(c.args[0].generators) == 1:
+                g = c.args[0].generators[0]
+                if isinstance(g.target, ast.Name) and not g.ifs and not g.is_async and isinstance(c.args[0], ast.GeneratorExp):
+                    elts = elements(g.iter, c)
+                    if elts:
+                        vals = [subst(c.args[0].elt, g.target.id, e) for e in elts]
+                        new = vals[0] if len(vals) == 1 else ast.BoolOp(op=ast.And() if c.func.id == "all" else ast.Or(), values=vals)
+                        return ast.copy_location(new, c)
+            return c
+    changed = U().visit(fn)
+    # `if (a and b) and (c and d)` is `if a and b and c and d`
+    class F(ast.NodeTransformer):
+        def visit_BoolOp(self, b):
+            self.generic_visit(b)
+            vals = []
+            for v in b.values:
+                vals.extend(v.values if isinstance(v, ast.BoolOp) and type(v.op) is type(b.op) else [v])
+            b.values = vals
+            return b
+    fn = F().visit(changed)
+    ast.fix_missing_locations(fn)
+    return _Unrolled(fi, _set_parents(fn))
+
+
+def outcomes(fn):
+    """The expressions a function may return, conditional expressions split into their alternatives (the facts that
+    select an alternative are found by `facts(leaf, fn)`): `return a if c else b` has the same outcomes as
+    `if c: return a` / `return b`."""
+    out = []
+
+    def leaves(e):
+        e = shape.unalias(e, fn)
+        if isinstance(e, ast.IfExp):
+            leaves(e.body)
+            leaves(e.orelse)
+        else:
+            out.append(e)
+    for r in shape.returns_of(fn):
+        if not shape.dead(r, fn):
+            leaves(r.value)
+    return out
+
+
 MAG = ("magnitude", "_magnitude", "m")
 
 
@@ -110,7 +232,7 @@ def run(ck, ix, tier):
     ck.rule("G-TAG", "abstract interpretation over the unit-tag domain")
     obl = 0
     for name in ("__eq__", "compare"):
-        fi = ix.func(PQ, f"PlainQuantity.{name}")
+        fi = unrolled(ix.func(PQ, f"PlainQuantity.{name}"))
         ck.analysed(fi)
         t = Tagger(ck, fi, "G-TAG")
         t.run()
@@ -132,7 +254,7 @@ def run(ck, ix, tier):
     # __ne__ is the negation of __eq__ (element-wise for arrays)
     fi_ne = ix.func(PQ, "PlainQuantity.__ne__")
     ck.analysed(fi_ne)
-    rets_ = [shape.rnorm(r.value, fi_ne.node) for r in shape.returns_of(fi_ne.node)]
+    rets_ = {shape.rnorm(e, fi_ne.node) for e in outcomes(fi_ne.node)}
     ck.check(sorted(rets_) == ["not self.__eq__(other)", "np.logical_not(self.__eq__(other))"], "G-TWIN", "PlainQuantity.__ne__|negation-of-eq", fi_ne.loc(), "__ne__ negates __eq__", "__ne__ is no longer the negation of __eq__")
 
     # ------------------------------------------------------------ compare: order of checks
@@ -172,7 +294,7 @@ def run(ck, ix, tier):
             ck.check(okc, "G-TABLE", f"{cls_name}.{nm}|uses-{op}", m.loc() if m else cls_mod, f"{nm} -> compare(other, {op})", f"{label}{nm} does not call compare with {op}")
     fu = ix.func(PU, "PlainUnit.compare")
     ck.analysed(fu)
-    rets_ = sorted(shape.rnorm(r.value, fu.node) for r in shape.returns_of(fu.node))
+    rets_ = sorted({shape.rnorm(e, fu.node) for e in outcomes(fu.node)})
     rets_ = [r for r in rets_ if r != "NotImplemented"]
     ck.check(rets_ == ["self._REGISTRY.Quantity(1, self).compare(other, op)", "self._REGISTRY.Quantity(1, self).compare(self._REGISTRY.Quantity(1, other), op)"], "G-TWIN",
              "PlainUnit.compare|via-unit-quantities", fu.loc(), "units are ordered as 1*unit quantities", "Unit.compare no longer compares 1*self with 1*other")
@@ -263,7 +385,7 @@ def eq_zero_rule(ck, ix):
     quantities are known to be multiplicative (D4: 0 degC is not 0 kelvin) and the answer is the dimensionality
     comparison.  Decided on the facts that hold at each statement, so the spelling of the condition (one `if`, nested
     `if`s, guard clauses, a hoisted conjunction) does not matter."""
-    fi = ix.func(PQ, "PlainQuantity.__eq__")
+    fi = unrolled(ix.func(PQ, "PlainQuantity.__eq__"))
     ck.analysed(fi)
     fn = fi.node
     t0 = Tagger(ck, fi, "G-TAG")
